@@ -248,3 +248,12 @@ NEUTRALS = [
     M("initial: guard mirrored", _MC, "while n_samples_drawn < n_samples:", "while n_samples > n_samples_drawn:"),
     M("initial: counter explicit", _MC, "n_samples_drawn += n_valid", "n_samples_drawn = n_valid + n_samples_drawn"),
 ]
+
+# functions the property is anchored in (auto-mutant sweep of the thorough tier)
+ANCHORS = [
+    'aspire.samplers.mcmc:MCMCSampler.draw_initial_samples',
+    'aspire.samplers.smc.minipcn:MiniPCNSMC.mutate',
+    'aspire.samplers.smc.emcee:EmceeSMC.mutate',
+    'aspire.samplers.smc.blackjax:BlackJAXSMC.mutate',
+    'aspire.samplers.importance:ImportanceSampler.sample',
+]
